@@ -8,10 +8,10 @@ from .common import run_control, generic_rules
 
 def analyse(ctx: CheckContext, p: Program):
     r = Resolver(p)
-    generic_rules(ctx, p, r, "C08")
-    tables.check_interpolation_keys(ctx, p, r)
-    tables.check_capacity_pairs(ctx, p, r)
-    tables.check_insert_count(ctx, p, r)
+    ctx.guard(generic_rules, ctx, p, r, "C08")
+    ctx.guard(tables.check_interpolation_keys, ctx, p, r)
+    ctx.guard(tables.check_capacity_pairs, ctx, p, r)
+    ctx.guard(tables.check_insert_count, ctx, p, r)
 
 
 def run(ctx: CheckContext):
